@@ -10,6 +10,7 @@ CONSTANTS
   B = 1  TXMax = 2
   Inline = FALSE  BatchTX = FALSE  Drops = TRUE
   ScrubTxLen = TRUE  ResetRawSA = TRUE  BothOnHandoff = FALSE
+  ClearHdr = TRUE  TruncRelease = TRUE
   ResetSlot = FALSE  Opts <- OAll
 SPECIFICATION Spec
 SYMMETRY SymClients
